@@ -35,6 +35,7 @@ var kinds = []string{
 	"dup-token", "observe-cancel", "observe-live", "observe-silent-cancel", "observe-acked-silent-cancel", "observe-404",
 	"ping-ok", "ping-silent-cancel", "oneway-non", "oneway-con-silent-cancel",
 	"incoming-con", "incoming-non", "incoming-blockwise-abort", "write-error",
+	"ping-write-error", "observe-write-error", "oneway-write-error", "con-queued-behind-nstart-cancel",
 }
 
 type cfg struct {
@@ -63,7 +64,7 @@ func scenario(c cfg) *mcx.Scenario {
 			var w *udpw.World
 			liveObs := 0
 			vrt.App("env", func() {
-				w = udpw.New(udpw.Opts{NStart: 2, MaxRetransmit: 1, LimitTotal: 2, LimitEndpoint: 2, QueueSize: 4, BlockWise: true, SZX: blockwise.SZX16,
+				w = udpw.New(udpw.Opts{NStart: 1, MaxRetransmit: 1, LimitTotal: 2, LimitEndpoint: 2, QueueSize: 4, BlockWise: true, SZX: blockwise.SZX16,
 					Handler: func(rw *responsewriter.ResponseWriter[*client.Conn], r *pool.Message) {
 						if r.Code() == codes.GET || r.Code() == codes.POST {
 							_ = rw.SetResponse(codes.Content, message.TextPlain, bytes.NewReader([]byte("served")))
@@ -146,6 +147,36 @@ func scenario(c cfg) *mcx.Scenario {
 						_ = w.Inject(message.Message{Type: message.Confirmable, Code: codes.POST, MessageID: w.PeerMID(), Token: tok, Payload: bytes.Repeat([]byte("p"), 16),
 							Options: message.Options{{ID: message.URIPath, Value: []byte("in")}, u32opt(message.Block1, 0<<4|8|0)}})
 						opDone = true
+					case "ping-write-error":
+						w.Sess.WriteErr = func(*pool.Message) error { return errors.New("injected write error") }
+						start("ping", func() error { return cc.Ping(ctx) })
+					case "observe-write-error":
+						w.Sess.WriteErr = func(*pool.Message) error { return errors.New("injected write error") }
+						start("observe", func() error {
+							req := w.Request(ctx, codes.GET, "/obs", tok, message.Confirmable, nil)
+							req.SetObserve(0)
+							_, err := cc.DoObserve(req, func(*pool.Message) {})
+							return err
+						})
+					case "oneway-write-error":
+						w.Sess.WriteErr = func(*pool.Message) error { return errors.New("injected write error") }
+						start("write", func() error {
+							return cc.WriteMessage(w.Request(ctx, codes.POST, "/ow", tok, message.Confirmable, []byte("x")))
+						})
+					case "con-queued-behind-nstart-cancel":
+						// a confirmable request that nobody acknowledges holds the only NSTART slot; a second one queues behind
+						// it and both are cancelled there
+						start("do", func() error {
+							_, err := cc.Do(w.Request(ctx, codes.GET, "/first", tok, message.Confirmable, nil))
+							return err
+						})
+						queuedDone := false
+						vrt.App("do-queued", func() {
+							vrt.WaitUntil("second request waits until the first is on the wire", func() bool { return len(w.Outs) > w.Seen || opDone })
+							_, _ = cc.Do(w.Request(ctx, codes.GET, "/second", message.Token{0xC3, tok[1]}, message.Confirmable, nil))
+							queuedDone = true
+						})
+						_ = queuedDone
 					case "write-error":
 						w.Sess.WriteErr = func(*pool.Message) error { return errors.New("injected write error") }
 						start("do", func() error {
@@ -282,8 +313,6 @@ func scenario(c cfg) *mcx.Scenario {
 							continue
 						case strings.HasPrefix(k, "blockwise") && abandoned:
 							continue
-						case k == "midHandlers" && abandoned:
-							continue // an unacknowledged CON stays registered until its retransmissions are exhausted
 						}
 						if v != want {
 							left = append(left, k)
